@@ -116,11 +116,13 @@ def gen_cases(rng, tier):
         yield from _enum(A_SIX, 4, [rng.choice([("server", "p22"), ("client", "p32"), ("client", "off"), ("server", "off")])], minlen=4)
         n = 1500
     elif tier == "thorough":
+        four = [("server", "off"), ("client", "off"), ("server", "p32"), ("client", "p22")]
         yield from _enum(A_CORE, 4, CFGS)
-        yield from _enum(A_CORE, 5, [("server", "off"), ("client", "off"), ("server", "p32"), ("client", "p22")], minlen=5)
+        yield from _enum(A_CORE, 5, [four[rng.randrange(4)]], minlen=5)
         yield from _enum(A_FULL, 3, [("server", "off"), ("client", "off")])
-        yield from _enum(A_SIX, 6, [("server", "off"), ("client", "off")], minlen=5)
-        n = 40000
+        yield from _enum(A_SIX, 5, [("server", "off"), ("client", "off")], minlen=5)
+        yield from _enum(A_SIX, 6, [four[rng.randrange(2)]], minlen=6)
+        n = 20000
     else:
         n = 6000
     for _ in range(n):
